@@ -127,12 +127,23 @@ def run_life_case(case, res):
             pass
         res.count("queries_and_steps_between_loads")
 
+    def look():
+        # neither must anything the user LOOKED at between the loads (tables, views, statistics) stick: a reload leaves
+        # what a fresh load leaves, not what was last shown
+        if case.get("look"):
+            try:
+                snap(kind, hist)
+            except Exception:
+                pass
+            res.count("inspections_between_loads")
+
     if poke and poke[0]:
         poke_it()
     for hi_, t in enumerate(case["history"]):
         if safe_load(hist, t) is not None:
             res.count("failed_loads_in_history")
             failed_here += 1
+        look()
         if hi_ + 1 < len(poke) and poke[hi_ + 1]:
             poke_it()
     if poke and getattr(hist, "has_started", False):
@@ -377,6 +388,7 @@ def gen_life_case(rng):
         c_ = {"kind": "life", "sim": "toy", "cfg": {}, "text": text, "regs": {}, "terminal": terminal, "history": history, "max_steps": 300, "after_done": [rng.choice(["step", "run", "first", "second", "single"]) for _ in range(4)]}
         if toy_poke:
             c_["poke_steps"] = toy_poke
+        c_["look"] = rng.random() < 0.4
         return c_
     prog, regs, terminal = gen_rv_program(rng)
     cfg = {"hz": rng.random() < 0.8, "dcache": rand_cache(rng), "icache": rand_cache(rng, data=False)}
@@ -386,7 +398,7 @@ def gen_life_case(rng):
         text = ".data\nd0: .word 1, 2, 3\nd1: .string \"ab\"\n.text\n" + text
     history = []
     for _ in range(rng.choice([0, 1, 2, 3, 5])):
-        history.append(rng.choice(BAD_TEXTS_RV) if rng.random() < 0.5 else asm_text(gen_rv_program(rng)[0]))
+        history.append(rng.choice(BAD_TEXTS_RV) if rng.random() < 0.5 else (rng.choice(["", "", ".data\nh0: .word 7, 8, 9\nh1: .half 1, 2\nh2: .string \"xyz\"\n.text\n"]) + asm_text(gen_rv_program(rng)[0])))
     if rng.random() < 0.2:
         history.insert(rng.randint(0, len(history)), text)  # the very same text was loaded before (editor re-assembles)
     if rng.random() < 0.15:
@@ -402,6 +414,7 @@ def gen_life_case(rng):
     case = {"kind": "life", "sim": kind, "cfg": cfg, "text": text, "regs": regs, "terminal": terminal, "history": history, "max_steps": 700, "after_done": [rng.choice(["step", "run", "step"]) for _ in range(4)]}
     if poke_steps:
         case["poke_steps"] = poke_steps
+    case["look"] = rng.random() < 0.4
     return case
 
 
